@@ -88,6 +88,8 @@ func TestPropRandomFaults(t *testing.T) {
 	rapid.Check(t, func(rt *rapid.T) {
 		c := genConfig(rt)
 		c.Fault = rapid.SampledFrom([]string{"short", "short", "erronly", "erronly", "once", "close"}).Draw(rt, "fault")
+		// half of the cases fail the way a file fails: a PathError around an errno
+		c.Errno = rapid.SampledFrom([]string{"", "", "", "", "epipe", "enospc", "eio", "edquot"}).Draw(rt, "errno")
 		r := getReference(c)
 		if r.Err == nil && !r.Timeout && c.Fault != "close" {
 			c.K = genOffset(rt, c, r)
